@@ -25,4 +25,5 @@ with concurrent.futures.ThreadPoolExecutor(max_workers=8) as ex:
         if not res: print(f"{diff}: SILENT"); continue
         print(f"{diff}: ALARM")
         for p,d in res.items():
+            if not isinstance(d,dict): print('   ',p,d); continue
             print('   ',p,'new=',sorted(set(d.get('new',[])))[:3],'errs=',[e[:160] for e in d.get('analysis_errors',[])][:2])
